@@ -41,6 +41,9 @@ type caseT struct {
 	ID      uint16 `json:"caller_id"`
 	// abandoned-retry sequences: the TCP side answers after TCPDelayMs, the caller's
 	// context lasts CtxMs (0 = 5 s)
+	// TCPFlags != 0: header flags of the TCP reply (default 0x8180); the TCP reply is
+	// final whatever its flags say, TC included
+	TCPFlags uint16 `json:"tcp_reply_flags,omitempty"`
 	// Size > 0: the UDP reply is exactly this many bytes long (Pad is ignored)
 	Size       int `json:"udp_reply_size,omitempty"`
 	TCPDelayMs int `json:"tcp_delay_ms,omitempty"`
@@ -188,6 +191,7 @@ func (s *server) serveTCP() {
 		}
 		go func(conn net.Conn) {
 			defer conn.Close()
+			onConn := 0 // queries received on this connection
 			for {
 				conn.SetDeadline(time.Now().Add(10 * time.Second))
 				hdr := make([]byte, 2)
@@ -206,17 +210,27 @@ func (s *server) serveTCP() {
 				if c == nil {
 					return
 				}
+				onConn++
 				o.mu.Lock()
 				o.tcpConns++
 				o.tcpQuery = q
 				var r []byte
-				if s.mode == "answer" {
-					r = dnsadv.Reply(qi.WireID, 0x8180, qi.QSect, fmt.Sprintf("tcp/q%d", qi.Seq), 900+qi.Seq%700, byte(qi.Seq>>3))
+				if s.mode == "flaky" && onConn > 1 {
+					// the query is read completely, then the connection is closed unanswered
+					o.mu.Unlock()
+					return
+				}
+				if s.mode == "answer" || s.mode == "flaky" {
+					tf := uint16(0x8180)
+					if c.TCPFlags != 0 {
+						tf = c.TCPFlags
+					}
+					r = dnsadv.Reply(qi.WireID, tf, qi.QSect, fmt.Sprintf("tcp/q%d", qi.Seq), 900+qi.Seq%700, byte(qi.Seq>>3))
 					o.tcpReply = r
 				}
 				o.mu.Unlock()
 				switch s.mode {
-				case "answer":
+				case "answer", "flaky":
 					if c.TCPDelayMs > 0 {
 						time.Sleep(time.Duration(c.TCPDelayMs) * time.Millisecond)
 					}
@@ -307,7 +321,7 @@ func runCase(s *server, u upstream.Upstream, c *caseT) {
 			return
 		}
 		rep.Count("tc_clear_returned_udp_reply_unchanged", 1)
-	case tc && s.mode == "answer":
+	case tc && (s.mode == "answer" || s.mode == "flaky"):
 		if o.tcpConns == 0 {
 			key := "tc-set-no-tcp-retry"
 			if err == nil && bytes.Equal(got, expectUDP) {
@@ -338,7 +352,17 @@ func runCase(s *server, u upstream.Upstream, c *caseT) {
 			rep.Violation("tcp-reply-id-mismatch", "reply ID differs from the caller's", wit)
 			return
 		}
+		if o.tcpConns != 1 && s.mode == "answer" {
+			rep.Violation("query-sent-over-tcp-more-than-once", fmt.Sprintf("the query was sent %d times over TCP although the first TCP query was answered", o.tcpConns), wit)
+			return
+		}
 		rep.Count("tc_set_returned_tcp_reply", 1)
+		if c.TCPFlags != 0 {
+			rep.Count("tcp_replies_with_arbitrary_flags_returned", 1)
+			if c.TCPFlags&0x0200 != 0 {
+				rep.Count("tcp_replies_with_tc_set_returned_as_final", 1)
+			}
+		}
 	default: // TC set, TCP side fails
 		if s.mode != "none" && o.tcpConns == 0 {
 			rep.Violation("tc-set-no-tcp-retry", fmt.Sprintf("UDP reply flags %#04x have TC set but the TCP listener never received the query", c.Flags), wit)
@@ -455,6 +479,31 @@ func sizeBoundaries(servers map[string]*server, ups map[string]upstream.Upstream
 				rep.Count(fmt.Sprintf("size_boundary_cases:%d", size), 1)
 			}
 		}
+	}
+}
+
+// flakyTCPReuse: the TCP side answers the first query of every connection and
+// closes, unanswered, on the second one (after reading it completely). A
+// sequence of truncated exchanges on one upstream therefore keeps hitting reused
+// connections that die under the query; the upstream must send the same query
+// again over a new connection to the same server and return that reply.
+func flakyTCPReuse(rng *rand.Rand) {
+	s, err := newServer("flaky")
+	if err != nil {
+		rep.Inconclusive("flaky tcp: cannot start server: %v", err)
+		return
+	}
+	u, err := upstream.NewUpstream("udp://"+s.addr, upstream.Opt{})
+	if err != nil {
+		rep.Inconclusive("flaky tcp: NewUpstream: %v", err)
+		return
+	}
+	defer u.Close()
+	for i := 0; i < rep.Pick(40, 400); i++ {
+		c := &caseT{Seq: int(seqCtr.Add(1)), Flags: 0x8380 | uint16(rng.Intn(16)), Pad: []int{0, 50, 1100}[rng.Intn(3)], TCPMode: "flaky", ID: uint16(rng.Intn(65536))}
+		caselog.Log(map[string]any{"flaky_tcp_reuse": c})
+		runCase(s, u, c)
+		rep.Count("tc_queries_against_a_tcp_side_that_kills_reused_connections", 1)
 	}
 }
 
@@ -647,7 +696,11 @@ func main() {
 		default:
 			id = uint16(rng.Intn(65536))
 		}
-		jobs <- job{mode, &caseT{Seq: int(seqCtr.Add(1)), Flags: f, Pad: pads[rng.Intn(len(pads))], TCPMode: mode, ID: id}}
+		ct := &caseT{Seq: int(seqCtr.Add(1)), Flags: f, Pad: pads[rng.Intn(len(pads))], TCPMode: mode, ID: id}
+		if mode == "answer" && f&0x0200 != 0 && i%3 == 0 {
+			ct.TCPFlags = uint16(rng.Intn(65536)) | 0x8000 // any flag word, TC included
+		}
+		jobs <- job{mode, ct}
 	}
 	close(jobs)
 	wg.Wait()
@@ -655,6 +708,7 @@ func main() {
 	optionVariants(servers["answer"], rng)
 	abandonedRetries(servers["answer"], rng)
 	sizeBoundaries(servers, ups, rng)
+	flakyTCPReuse(rng)
 	for _, u := range ups {
 		u.Close()
 	}
